@@ -36,6 +36,10 @@ def work(item, tier, seed):
     env.install()
     res = H.Result()
     pname, chunk, nchunks = item
+    if pname == "@root":
+        # Scan / Vmap / Cond objects edited directly (not as sub-calls): recorded arguments + coherence
+        gfi.check_root_edits(res, PROP, "update", seed)
+        return res
     prog, argsl, _t = FAMILY[pname]
     fn = L.compile_prog(prog)
     key = jax.random.key(seed * 15485863 + 3)
@@ -153,6 +157,7 @@ def items(tier):
         nch = 1 if k <= 2 else 2 if k == 3 else 4
         for c in range(nch):
             its.append((pname, c, nch))
+    its.append(("@root", 0, 1))
     return its
 
 
